@@ -52,6 +52,8 @@ def world_labels(name, feats):
             labs.update(labels_in(open(os.path.join(w.dir, f)).read()))
     if 'type_urls' in w.cfg:
         labs.add(w.cfg['type_urls'].get('label', 'C20') + '.type-urls')
+    for p_ in (w.cfg.get('serde_attrs') or {}).get('labels', []):
+        labs.add(p_ + '.wire-names')
     for p_ in (w.cfg.get('storage_keys_same') or {}).get('labels', []):
         labs.add(p_ + '.legacy-storage-key')
     for p_ in (w.cfg.get('storage_keys') or {}).get('labels', []):
